@@ -181,6 +181,7 @@ let dispatch name =
     (match Exec.q_orient_compute atol { coq_Qnum = Z.zero; coq_Qden = Z.one } { coq_Qnum = Z.one; coq_Qden = Z.of_string "10000000000" } a b with
      | Some o -> out "Some"; plist pnat o.Orient.o_perm; plist pbool o.Orient.o_flip
      | None -> out "None")
+  | "number_model" -> let ps = rlist rnatlist in let (nss, n) = Exec.x_number_model ps in pnat n; plist (plist pnat) nss
   | _ -> out ("UNKNOWN " ^ name)
 
 let () =
